@@ -419,3 +419,104 @@ Theorem hw_parse evs k : hw_wf k evs -> cb_fifo (hw_stream evs) = (hw_entries ev
 Proof.
   intros Hw. rewrite <- (app_nil_r (hw_stream evs)). apply cb_fifo_elems; [|reflexivity]. eapply hw_elems; eassumption.
 Qed.
+
+(* ================================================================================================
+   6. the arithmetic core: chronobox_time on a hardware timestamp between markers k-1 and k
+   ================================================================================================ *)
+(* T is the absolute tick of the edge; it sits in the FIFO between marker k-1 (written at tick k*HALF, top bit
+   = (k-1) odd) and marker k (written at (k+1)*HALF), displaced by less than HALF from that window.
+   Then the program's time is the true time exactly when the edge really belongs to the window, and empty otherwise. *)
+Theorem hw_time_core k T : 1 <= k ->
+  k * HALF <= T + HALF -> T < (k + 1) * HALF + HALF ->
+  chronobox_time (T mod TURN / 2 * 2) (Some (oddN (k - 1), k - 1)) (Some (oddN k, k)) =
+  if (k * HALF <=? T) && (T <? (k + 1) * HALF) then Some (true_time T) else None.
+Proof.
+  intros Hk Hlo Hhi. unfold chronobox_time, TIMESTAMP_BITS, true_time, HALF, TURN in *.
+  change (2 ^ (24 - 1)) with 8388608. change (2 ^ 24) with 16777216.
+  replace (k - 1 + 1) with k by lia. rewrite N.eqb_refl. cbn [andb].
+  destruct (oddN_cases (k - 1)) as [[E1 M1]|[E1 M1]]; destruct (oddN_cases k) as [[E2 M2]|[E2 M2]];
+    rewrite E1, E2; cbn [Bool.eqb negb]; try (exfalso; lia).
+  - (* k-1 odd, k even: the window is the lower half of a turn *)
+    destruct (N.eqb_spec (T mod 16777216 / 2 * 2 / 8388608) 1) as [Et|Et]; cbn [Bool.eqb negb].
+    + replace ((k * 8388608 <=? T) && (T <? (k + 1) * 8388608)) with false; [reflexivity|].
+      symmetry. apply andb_false_iff.
+      destruct (N.leb_spec (k * 8388608) T); [right; apply N.ltb_ge; lia | left; reflexivity].
+    + replace ((k * 8388608 <=? T) && (T <? (k + 1) * 8388608)) with true.
+      * f_equal. lia.
+      * symmetry. apply andb_true_iff. split; [apply N.leb_le | apply N.ltb_lt]; lia.
+  - (* k-1 even, k odd: the window is the upper half of a turn *)
+    destruct (N.eqb_spec (T mod 16777216 / 2 * 2 / 8388608) 1) as [Et|Et]; cbn [Bool.eqb negb].
+    + replace ((k * 8388608 <=? T) && (T <? (k + 1) * 8388608)) with true.
+      * f_equal. lia.
+      * symmetry. apply andb_true_iff. split; [apply N.leb_le | apply N.ltb_lt]; lia.
+    + replace ((k * 8388608 <=? T) && (T <? (k + 1) * 8388608)) with false; [reflexivity|].
+      symmetry. apply andb_false_iff.
+      destruct (N.leb_spec (k * 8388608) T); [right; apply N.ltb_ge; lia | left; reflexivity].
+Qed.
+
+Lemma chronobox_time_no_next ts previous : chronobox_time ts previous None = None.
+Proof. unfold chronobox_time. destruct previous as [[? ?]|]; reflexivity. Qed.
+
+(* ================================================================================================
+   7. the program on a hardware stream = the specification written from the events
+   ================================================================================================ *)
+Lemma hw_first_mk : forall r k, hw_wf k r ->
+  first_mk (hw_entries r) = if has_marker r then Some (oddN k, k) else None.
+Proof.
+  induction r as [|ev r IH]; intros k Hw; [reflexivity|].
+  destruct ev as [T ch tr|c|body]; cbn [hw_wf hw_entries first_mk has_marker] in *.
+  - apply IH. tauto.
+  - destruct Hw as (-> & Hk & _). unfold HALF in *. f_equal. f_equal. apply N.mod_small. lia.
+  - apply IH. tauto.
+Qed.
+
+Lemma hw_rows_spec b : forall r k, 1 <= k -> hw_wf k r ->
+  rows_spec b (Some (oddN (k - 1), k - 1)) (hw_entries r) = hw_rows_from b k r.
+Proof.
+  induction r as [|ev r IH]; intros k Hk Hw; [reflexivity|].
+  destruct ev as [T ch tr|c|body]; cbn [hw_wf hw_entries rows_spec hw_rows_from] in *.
+  - destruct Hw as (Hc & Hlo & Hhi & Hw).
+    replace (k =? 0) with false by (symmetry; apply N.eqb_neq; lia).
+    rewrite (IH k Hk Hw), (hw_first_mk r k Hw). f_equal. f_equal.
+    destruct (has_marker r); cbn [andb].
+    + apply hw_time_core; assumption.
+    + apply chronobox_time_no_next.
+  - destruct Hw as (-> & Hk1 & Hw).
+    rewrite <- (IH (k + 1) ltac:(lia) Hw). replace (k + 1 - 1) with k by lia.
+    unfold HALF in *. rewrite (N.mod_small k) by lia. reflexivity.
+  - apply IH; tauto.
+Qed.
+
+(* everything before the first marker is skipped; the first marker of a hardware stream is (top clear, counter 0) *)
+Fixpoint hw_after_first_marker (evs : list hw_event) : option (list hw_event) :=
+  match evs with
+  | [] => None
+  | HMarker _ :: r => Some r
+  | _ :: r => hw_after_first_marker r
+  end.
+
+Lemma hw_skip b : forall evs, hw_wf 0 evs ->
+  match hw_after_first_marker evs with
+  | Some r => from_first is_mk0 (hw_entries evs) = Some (MK false 0 :: hw_entries r) /\ hw_wf 1 r /\
+              hw_rows_from b 0 evs = hw_rows_from b 1 r /\ has_marker evs = true
+  | None => from_first is_mk0 (hw_entries evs) = None /\ has_marker evs = false
+  end.
+Proof.
+  induction evs as [|ev r IH]; intros Hw; [split; reflexivity|].
+  destruct ev as [T ch tr|c|body];
+    cbn [hw_wf hw_entries from_first is_mk0 hw_after_first_marker hw_rows_from has_marker] in *.
+  - change (0 =? 0) with true. cbn iota. apply IH. tauto.
+  - destruct Hw as (-> & _ & Hw). change (0 mod HALF) with 0. change (0 =? 0) with true. cbn iota.
+    change (oddN 0) with false. change (0 + 1) with 1 in *. auto.
+  - apply IH. tauto.
+Qed.
+
+Theorem hw_board_correct b evs : hw_wf 0 evs ->
+  (do f <- cb_board_fifo (hw_stream evs); board_rows b f) = hw_board b evs.
+Proof.
+  intros Hw. rewrite cb_board_fifo_eq, (hw_parse evs 0 Hw). unfold hw_board, hw_rows.
+  pose proof (hw_skip b evs Hw) as Hs. destruct (hw_after_first_marker evs) as [r|].
+  - destruct Hs as (-> & Hw1 & -> & ->). cbn [bind]. rewrite board_rows_spec. cbn [rows_spec].
+    rewrite <- (hw_rows_spec b r 1 ltac:(lia) Hw1). reflexivity.
+  - destruct Hs as (-> & ->). reflexivity.
+Qed.
